@@ -407,7 +407,8 @@ type exec struct {
 	delivGID   []int64 // goroutine ids it ran on
 	delivTCE   bool
 	delivUnc   bool // delivered below uncaughtString
-	stepsAfter int  // step hooks fired after the injected panic was raised
+	reenterErr error
+	stepsAfter int // step hooks fired after the injected panic was raised
 	hostAfter  int
 	steps      int
 	final      string // snapshot after the run
@@ -465,6 +466,10 @@ type injection struct {
 	// the sentinel error (panicNil: a literal panic(nil))
 	panicVal interface{}
 	panicNil bool
+	// interrupt-reenter family: the (non-panicking) interrupt function re-enters the
+	// runtime: 1 Run of an expression, 2 Run of a block and a loop, 3 Otto.Call of a
+	// function literal containing a loop
+	reenter int
 }
 
 // state of one runtime across the first run, the follow-up and the second run
@@ -510,6 +515,14 @@ func (s *session) run(inj injection, sentinel error, stepCap int) *exec {
 		if len(e.delivered) == 1 {
 			e.delivTCE = inTCE()
 			e.delivUnc = inUncaught()
+		}
+		switch inj.reenter {
+		case 1:
+			_, e.reenterErr = vm.Run(`1 + 1`)
+		case 2:
+			_, e.reenterErr = vm.Run(`{ ; } for (;false;) {}`)
+		case 3:
+			_, e.reenterErr = vm.Call(`(function(){ for (;false;) {} return 1; })`, nil)
 		}
 		if inj.mode == modeIntPanic {
 			h.exitSeen = true
